@@ -135,7 +135,25 @@ def known_witness(run, key, payload, text):
 
 def classify(run, line_of, mism, stats):
     """Turn driver MISMATCH lines into violations (DESIGN.md section 5)."""
-    for l in mism[:400]:
+    # every line is looked at; per (kind, shape) only the first few are turned into violations / re-runs,
+    # so that thousands of instances of a known finding cannot crowd out a different disagreement
+    seen_shape = {}
+    todo = []
+    for l in mism:
+        t = l.split(" ", 3)
+        shape = (t[1], t[2].split(":")[0], (t[3].split()[0] if len(t) > 3 and t[1] in ("result", "accept", "walk") else ""))
+        if t[1] == "result" and len(t) > 3:
+            case = line_of.get(t[2], "")
+            evs = case.split("\t")[3].split(" ") if case else []
+            shape = shape + (reload_racing_return(evs),)
+        if t[1] == "accept":
+            m_at = re.search(r"at=(\S+)", l)
+            shape = (t[1], t[2].split(":")[0], m_at.group(1) if m_at else "")
+        seen_shape[shape] = seen_shape.get(shape, 0) + 1
+        if seen_shape[shape] <= 3:
+            todo.append(l)
+    stats["mismatch_shapes"] = len(seen_shape)
+    for l in todo:
         t = l.split(" ", 3)
         kind, cid, detail = t[1], t[2], (t[3] if len(t) > 3 else "")
         case = line_of.get(cid, "")
@@ -307,7 +325,11 @@ def replay(path):
         return 0
     want = rp.get("key", "")
     hit = False
-    if cid == "storm":
+    if cid == "storm" or want == "stream:stale-replay":
+        # a stale replay needs two state changes inside one GetStateChan call: re-running a single recorded case
+        # rarely reproduces the timing, the storm leg (the witness shape) does
+        if cid != "storm":
+            print("recorded case:", payload.get("case_line", "")[:400])
         lines, mm, summ, err = run_batch("storm", 1, 1, 0, ["-ms", "4000"])
         print(lines.get("storm", ""), summ)
         hit = summ.get("storm_stale", 0) > 0 or bool(mm)
